@@ -11,6 +11,7 @@ pub fn root_fx__entropy_bad(buf: &mut [u8]) {
     use rand::rngs::OsRng;
     OsRng.fill_bytes(buf);
 }
+#[derive(Clone)]
 pub struct FxRng;
 impl RngCore for FxRng {
     fn next_u32(&mut self) -> u32 {
@@ -91,4 +92,13 @@ impl Clone for FxCloneResetsBytes {
 }
 pub fn root_fx__clones(x: &FxCloneGood, y: &FxCloneDropsOption, z: &FxCloneResetsBytes) {
     let _ = (x.clone(), y.clone(), z.clone());
+}
+
+// ---- R17.5: drawing from a copy of the caller's generator (the caller's generator is not advanced) ------
+pub fn root_fx__rngclone_bad(rng: &mut FxRng, buf: &mut [u8]) {
+    let mut staged = rng.clone();
+    staged.fill_bytes(buf);
+}
+pub fn root_fx__rngclone_good(rng: &mut FxRng, buf: &mut [u8]) {
+    rng.fill_bytes(buf);
 }
